@@ -92,8 +92,8 @@ static inline bool is_space(unsigned char c) {
     return c == ' ' || c == '\n' || c == '\r' || c == '\t';
 }
 
-bool base64_decode(const std::string& in, std::vector<uint8_t>& out,
-                   Base64Alphabet alphabet, bool require_padding, bool strict) noexcept {
+static bool base64_decode_impl(const std::string& in, std::vector<uint8_t>& out,
+                               Base64Alphabet alphabet, bool require_padding, bool strict) noexcept {
     out.clear();
     if (in.empty()) return true;
 
@@ -190,6 +190,15 @@ bool base64_decode(const std::string& in, std::vector<uint8_t>& out,
         out.push_back(static_cast<uint8_t>((n >> 8)  & 0xFF));
         return true;
     }
+    return false;
+}
+
+bool base64_decode(const std::string& in, std::vector<uint8_t>& out,
+                   Base64Alphabet alphabet, bool require_padding, bool strict) noexcept {
+    if (base64_decode_impl(in, out, alphabet, require_padding, strict)) return true;
+    // invalid input: do not leave the bytes decoded before the error in the caller's vector
+    if (!out.empty()) std::memset(out.data(), 0, out.size());
+    out.clear();
     return false;
 }
 
@@ -320,8 +329,8 @@ static inline void b32_build_reverse(int8_t rev[256], bool accept_lower) {
     rev[ static_cast<unsigned char>('=') ] = -2;
 }
 
-bool base32_decode(const std::string& in, std::vector<uint8_t>& out,
-                   bool require_padding, bool strict) noexcept {
+static bool base32_decode_impl(const std::string& in, std::vector<uint8_t>& out,
+                               bool require_padding, bool strict) noexcept {
     out.clear();
     if (in.empty()) return true;
 
@@ -459,6 +468,15 @@ bool base32_decode(const std::string& in, std::vector<uint8_t>& out,
     uint8_t b3 = static_cast<uint8_t>(( (c4 & 0x01) << 7 ) | ( (c5 << 2) & 0x7C ) | ( (c6 >> 3) & 0x03 ));
     out.push_back(b0); out.push_back(b1); out.push_back(b2); out.push_back(b3);
     return true;
+}
+
+bool base32_decode(const std::string& in, std::vector<uint8_t>& out,
+                   bool require_padding, bool strict) noexcept {
+    if (base32_decode_impl(in, out, require_padding, strict)) return true;
+    // invalid input: do not leave the bytes decoded before the error in the caller's vector
+    if (!out.empty()) std::memset(out.data(), 0, out.size());
+    out.clear();
+    return false;
 }
 
 bool base32_decode(const std::string& in, secure_buffer<uint8_t>& out,
